@@ -71,6 +71,22 @@ impl CliRun {
     }
 }
 
+impl CliRun {
+    /// results of `-r json`: (title, kind) per entry
+    pub fn json_results(&self) -> Result<Vec<(String, String)>, String> {
+        let v: serde_json::Value = serde_json::from_slice(&self.stdout).map_err(|e| format!("stdout is not JSON ({e}): {:?}", self.stdout_str().chars().take(300).collect::<String>()))?;
+        let arr = v.as_array().ok_or("not an array")?;
+        Ok(arr
+            .iter()
+            .map(|e| {
+                let kind = e.get("result").and_then(|r| r.get("kind")).and_then(|k| k.as_str()).unwrap_or("<none>").to_string();
+                let title = e.get("title").and_then(|t| t.as_str()).or_else(|| e.get("testcase").and_then(|t| t.get("title")).and_then(|t| t.as_str())).unwrap_or("<no title>").to_string();
+                (title, kind)
+            })
+            .collect())
+    }
+}
+
 /// run `scrut <args>` with cwd = sandbox docs directory; extra_env is added to a minimal environment
 pub fn run_scrut(sb: &Sandbox, args: &[&str], extra_env: &[(&str, String)], limit: Duration) -> CliRun {
     run_scrut_observed(sb, args, extra_env, limit, &mut || {})
